@@ -77,7 +77,7 @@ def signed_length_law(ctx, cls, fsrc, filler):
                         **{fsrc: c0})
                 try:
                     Runner(ctx, set(), hook, ext={"np.asarray": float, "math.radians": math.radians}).call_fn(fn, [S] + list(args))
-                except (Undecided, Raised) as ex:
+                except (Undecided, Raised, TypeError, ValueError, AttributeError, ArithmeticError) as ex:
                     verdict = verdict or f"not interpretable: {ex}"
                     continue
                 got = S.__dict__.get(fsrc)
@@ -119,7 +119,8 @@ def r10_1(ctx):
                     out.ok(q, f"incremental update of the cached {fsrc.strip('_')} agrees with the transformation law",
                            where=fnq.where())
                 elif v.startswith("not interpretable"):
-                    out.undecided(q, f"cached {fsrc.strip('_')} across the transformation: {v}", where=fnq.where())
+                    if q in cc.updates:
+                        out.undecided(q, f"cached {fsrc.strip('_')} across the transformation: {v}", where=fnq.where())
                 else:
                     out.bad(q, f"the cached {fsrc.strip('_')} kept across the transformation is not the value of the "
                                f"transformed curve", where=fnq.where(), detail=v)
